@@ -540,6 +540,8 @@ func TestCLIDeterminism(t *testing.T) {
 				{"build", tmp, "-o", "-"},
 				append([]string{"build", tmp, "-o", "-"}, pathFlags...),
 				{"lint", tmp, "--error-format=json"},
+				{"lint", tmp, "--error-format=config-ignore-yaml"},
+				{"lint", tmp, "--error-format=junit"},
 				{"ls-files", tmp, "--include-imports"},
 				{"format", tmp, "-d"},
 				{"dep", "graph", tmp},
@@ -562,7 +564,7 @@ func TestCLIDeterminism(t *testing.T) {
 			r.Eval()
 			for i := range base {
 				if got[i] != base[i] {
-					r.Fail(t, "nondeterministic:cli:"+cmds(pi0)[i][0], fmt.Sprintf("`buf %s` differs under %+v: baseline ...%q..., got ...%q...", strings.Join(cmds(pi0)[i], " "), pi, firstDiff(base[i], got[i]), firstDiff(got[i], base[i])), c)
+					r.Fail(t, "nondeterministic:cli:"+strings.Join(cmds(pi0)[i][:1], "")+formatSuffix(cmds(pi0)[i]), fmt.Sprintf("`buf %s` differs under %+v: baseline ...%q..., got ...%q...", strings.Join(cmds(pi0)[i], " "), pi, firstDiff(base[i], got[i]), firstDiff(got[i], base[i])), c)
 					return
 				}
 			}
@@ -572,6 +574,16 @@ func TestCLIDeterminism(t *testing.T) {
 		}
 		r.Class("cli-case")
 	})
+}
+
+// formatSuffix names the --error-format of a command line in a violation key ("" for json / none).
+func formatSuffix(args []string) string {
+	for _, a := range args {
+		if strings.HasPrefix(a, "--error-format=") && a != "--error-format=json" {
+			return ":" + strings.TrimPrefix(a, "--error-format=")
+		}
+	}
+	return ""
 }
 
 // stripDiffTimes removes the wall-clock timestamps of unified-diff headers (`--- a.orig\t<time>`).
